@@ -490,19 +490,23 @@ def run_l3(ctx):
     rng = ctx.rng("l3")
     world = World()
     try:
-        depth = ctx.pick(3, 4)
+        # quick: a fifth of all depth-3 histories; thorough: ALL depth-3 histories and a third of the depth-4 ones
+        # (the alphabet has grown to 16 operations: 65 536 live depth-4 histories would take most of an hour)
         k = 0
-        for hist in itertools.product(ALPHABET, repeat=depth):
-            k += 1
-            if not ctx.mine(k):
-                continue
-            # skip histories without any network call
-            if not any(o[0] in ("get", "upload", "delete", "redirect", "getfail", "getctx") for o in hist):
-                continue
-            if ctx.quick() and (k // ctx.nshards) % 5:
-                continue
-            run_history(ctx, world, hist, tofu=True)
-        ctx.count("exhaustive_scope", f"L3 depth {depth} over {len(ALPHABET)} operations" + (" (1/5 sample)" if ctx.quick() else ""))
+        for depth in ((3,) if ctx.quick() else (3, 4)):
+            for hist in itertools.product(ALPHABET, repeat=depth):
+                k += 1
+                if not ctx.mine(k):
+                    continue
+                # skip histories without any network call
+                if not any(o[0] in ("get", "upload", "delete", "redirect", "getfail", "getctx") for o in hist):
+                    continue
+                if ctx.quick() and (k // ctx.nshards) % 5:
+                    continue
+                if depth == 4 and (k // ctx.nshards) % 3:
+                    continue
+                run_history(ctx, world, hist, tofu=True)
+        ctx.count("exhaustive_scope", f"L3 over {len(ALPHABET)} operations: " + ("depth 3 (1/5 sample)" if ctx.quick() else "depth 3 exhaustive, depth 4 (1/3 sample)"))
         if ctx.shard == 0 or ctx.nshards == 1:
             for hist in LOOKALIKE_HISTORIES:
                 for tofu_on in (True,):
